@@ -224,3 +224,70 @@ func VH_C06_rerun() {
 		vCover("second-batch-larger")
 	}
 }
+
+// items need not be distinct: with ANY payloads (symbolic ints — equal ones included) every item is
+// processed by its own exec call, and slot i holds the outcome of a call made for item i and for no
+// other item
+func VH_C06_dups() {
+	vUnwind(24)
+	n := vParam("n", 3)
+	c := vNondet[int]("c")
+	vAssume(0 <= c && c <= vParam("c", 2))
+	c = vConcrete(c)
+	var pay [4]int
+	for i := 0; i < n; i++ {
+		pay[i] = vNondetK[int]("payload", i)
+	}
+	var callIn [8]int
+	var callTok [8]any
+	calls := 0
+	posts := 0
+	var res []Result
+	b := NewBatchNode().WithBatchConcurrency(c).
+		WithPrepFunc(func(ctx context.Context, s *SharedStore) ([]Result, error) {
+			items := make([]Result, n)
+			for i := range items {
+				items[i] = NewResult(pay[i])
+			}
+			return items, nil
+		}).
+		WithExecFunc(func(ctx context.Context, item Result) (Result, error) {
+			var tok *vTok
+			vMonC(1, func() {
+				v, _ := item.Value().(int)
+				if calls < len(callIn) {
+					callIn[calls] = v
+					tok = &vTok{id: 700 + calls}
+					callTok[calls] = tok
+				}
+				calls++
+			})
+			return NewResult(tok), nil
+		}).
+		WithPostFunc(func(ctx context.Context, s *SharedStore, items, results []Result) (Action, error) {
+			vMon(func() { posts++; res = results })
+			return "done", nil
+		})
+	_, err := Run(vNewCtx(), b, NewSharedStore())
+	if err != nil || posts != 1 || len(res) != n {
+		return
+	}
+	vAssert(calls == n, "every-item-gets-its-own-exec-call")
+	used := [8]bool{}
+	for i := 0; i < n; i++ {
+		found := false
+		for k := 0; k < calls && k < len(callIn); k++ {
+			if !used[k] && vSame(res[i].Value(), callTok[k]) {
+				vAssert(callIn[k] == pay[i], "slot-i-holds-the-value-of-item-i")
+				used[k], found = true, true
+				break
+			}
+		}
+		vAssert(found, "slot-i-is-the-outcome-of-no-other-item")
+	}
+	if pay[0] == pay[1] {
+		vCover("duplicate-items")
+	} else {
+		vCover("distinct-items")
+	}
+}
